@@ -37,27 +37,31 @@ theorem flexValidate_inv (os f pos : Nat) (data : Slice) (h : flexValidate d l o
         · rename_i hnz
           split at h
           · simp at h
-          · rename_i hcond
-            simp only [Bool.or_eq_true, decide_eq_true_eq, Bool.and_eq_true, Bool.not_eq_true', decide_eq_false_iff_not,
-              not_or, not_and, Nat.not_lt] at hcond
+          · rename_i hge0
+            have hge : os ≤ next := by omega
             split at h
-            · rename_i hlast
-              have h2 : os ≤ data.len := by omega
-              simp only [Slice.splitAt, h2, if_true] at h
-              exact .last next hr hnz (by simpa using hlast) (by omega) h2 (Res.offset_eq_ok.1 h)
-            · rename_i hlast
-              have hne : next ≠ l.max := by simpa using hlast
-              have hnd : next ≤ data.len := by
-                have := hcond.2 (by simpa using hne); omega
-              simp only [Slice.splitAt, hnd, if_true] at h
-              have h3 : os ≤ (data.take next).len := by simp only [Slice.len_take]; omega
-              simp only [h3, if_true] at h
-              cases hv : d.validate ((data.take next).drop os) with
-              | fault w => simp [hv] at h
-              | err e => simp [hv] at h
-              | ok u =>
-                simp only [hv, Res.offset_ok] at h
-                exact .item next hr hnz hne (by omega) hnd hv h
+            · simp at h
+            · rename_i hcond
+              simp only [Bool.or_eq_true, decide_eq_true_eq, Bool.and_eq_true, Bool.not_eq_true', decide_eq_false_iff_not,
+                not_or, not_and, Nat.not_lt] at hcond
+              split at h
+              · rename_i hlast
+                have h2 : os ≤ data.len := by omega
+                simp only [Slice.splitAt, h2, if_true] at h
+                exact .last next hr hnz (by simpa using hlast) hge h2 (Res.offset_eq_ok.1 h)
+              · rename_i hlast
+                have hne : next ≠ l.max := by simpa using hlast
+                have hnd : next ≤ data.len := by
+                  have := hcond.2 (by simpa using hne); omega
+                simp only [Slice.splitAt, hnd, if_true] at h
+                have h3 : os ≤ (data.take next).len := by simp only [Slice.len_take]; omega
+                simp only [h3, if_true] at h
+                cases hv : d.validate ((data.take next).drop os) with
+                | fault w => simp [hv] at h
+                | err e => simp [hv] at h
+                | ok u =>
+                  simp only [hv, Res.offset_ok] at h
+                  exact .item next hr hnz hne hge hnd hv h
 
 /-- constructing one step: terminator -/
 theorem flexValidate_term (os f pos : Nat) (data : Slice) (hal : data.addr % max l.align d.align = 0)
@@ -77,15 +81,11 @@ theorem flexValidate_last (os f pos next : Nat) (data : Slice) (hal : data.addr 
     flexValidate d l os (f+1) pos data = .ok () := by
   unfold flexValidate
   have hc : checkAlignMin l.align l.size data = .ok () := checkAlignMin_ok.2 ⟨hla, hlen⟩
-  have hcond : ¬ (os > next ∨ os > data.len ∨ (¬ next = l.max ∧ next > data.len)) := by
-    intro h; rcases h with h | h | h
-    · omega
-    · omega
-    · exact h.1 hmax
-  simp only [hal, hc, hr, hn, hmax, ne_eq, not_true_eq_false, if_false, Slice.splitAt, h2, if_true, hv, Res.offset_ok]
-  simp only [← hmax, decide_true, Bool.not_true, Bool.false_and, Bool.or_false, Bool.or_eq_true, decide_eq_true_eq]
-  have : ¬ (os > next ∨ os > data.len) := by omega
-  simp [this, hv]
+  have c1 : ¬ os > next := by omega
+  have c2 : ¬ os > data.len := by omega
+  subst hmax
+  have hn' : ¬ l.max = 0 := hn
+  simp [hal, hc, hr, hn', c1, c2, Slice.splitAt, h2, hv]
 
 theorem flexSize_last (os al f pos next : Nat) (data : Slice) (hr : l.readU data = .ok next) (hn : next ≠ 0)
     (hmax : next = l.max) (h2 : os ≤ data.len) (z : Nat) (hz : d.size (data.drop os) = .ok z) :
@@ -115,33 +115,33 @@ end Flex
 /-- the walk, unfolded once, for a slot that is readable and not the terminator -/
 theorem flexValidate_unfold (d : Dict) (l : LenTy) (os f pos next : Nat) (data : Slice)
     (hal : data.addr % max l.align d.align = 0) (hla : data.addr % l.align = 0) (hlen : l.size ≤ data.len)
-    (hr : l.readU data = .ok next) (hn : next ≠ 0) :
+    (hr : l.readU data = .ok next) (hn : next ≠ 0) (hge : os ≤ next) :
     flexValidate d l os (f+1) pos data =
-      if os > next ∨ os > data.len ∨ (next ≠ l.max ∧ next > data.len) then .err ⟨.insufficientSize, pos + os⟩
+      if os > data.len ∨ (next ≠ l.max ∧ next > data.len) then .err ⟨.insufficientSize, pos + os⟩
       else if next = l.max then (d.validate (data.drop os)).offset (pos + os)
       else match (d.validate ((data.take next).drop os)).offset (pos + os) with
         | .ok () => flexValidate d l os f (pos + next) (data.drop next)
         | r => r := by
   conv => lhs; unfold flexValidate
   have hc : checkAlignMin l.align l.size data = .ok () := checkAlignMin_ok.2 ⟨hla, hlen⟩
-  simp only [hal, ne_eq, not_true_eq_false, if_false, hc, hr, hn]
-  by_cases hcond : os > next ∨ os > data.len ∨ (next ≠ l.max ∧ next > data.len)
-  · have : (decide (os > next) || decide (os > data.len) || !decide (next = l.max) && decide (next > data.len)) = true := by
-      rcases hcond with h | h | h
-      · simp [h]
+  have hng : ¬ os > next := by omega
+  simp only [hal, ne_eq, not_true_eq_false, if_false, hc, hr, hn, hng]
+  by_cases hcond : os > data.len ∨ (next ≠ l.max ∧ next > data.len)
+  · have : (decide (os > data.len) || !decide (next = l.max) && decide (next > data.len)) = true := by
+      rcases hcond with h | h
       · simp [h]
       · simp [h.1, h.2]
     simp only [this, if_true, hcond]
-  · have : (decide (os > next) || decide (os > data.len) || !decide (next = l.max) && decide (next > data.len)) = false := by
+  · have : (decide (os > data.len) || !decide (next = l.max) && decide (next > data.len)) = false := by
       simp only [not_or, not_and] at hcond
-      obtain ⟨c1, c2, c3⟩ := hcond
+      obtain ⟨c2, c3⟩ := hcond
       by_cases hm : next = l.max
-      · rw [hm] at c1; simp [c1, c2, hm]
+      · simp [c2, hm]
       · have := c3 hm
-        simp [c1, c2, hm, this]
+        simp [c2, hm, this]
     simp only [this, Bool.false_eq_true, if_false, hcond]
     simp only [not_or, not_and] at hcond
-    obtain ⟨c1, c2, c3⟩ := hcond
+    obtain ⟨c2, c3⟩ := hcond
     by_cases hm : next = l.max
     · have h2 : os ≤ data.len := by omega
       simp only [hm, if_true, Slice.splitAt, h2]
@@ -292,15 +292,14 @@ theorem flex_chain :
             have hr' : l.readU (data.take k) = .ok next := by
               rw [readU_congr l data (data.take k) rfl hlen (by omega)
                 (by simp only [Slice.take, List.take_take]; congr 1; omega)]; exact hr
-            rw [flexValidate_unfold d l _ f' pos' next (data.take k) (by simpa using hal) (by simpa using hla) (by omega) hr' hn]
+            rw [flexValidate_unfold d l _ f' pos' next (data.take k) (by simpa using hal) (by simpa using hla) (by omega) hr' hn h1]
             by_cases hko : k < max l.size d.align
-            · have : max l.size d.align > next ∨ max l.size d.align > (data.take k).len ∨
-                  (next ≠ l.max ∧ next > (data.take k).len) := Or.inr (Or.inl (by omega))
+            · have : max l.size d.align > (data.take k).len ∨
+                  (next ≠ l.max ∧ next > (data.take k).len) := Or.inl (by omega)
               simp only [this, if_true]; exact ⟨_, rfl⟩
-            · have : ¬ (max l.size d.align > next ∨ max l.size d.align > (data.take k).len ∨
+            · have : ¬ (max l.size d.align > (data.take k).len ∨
                   (next ≠ l.max ∧ next > (data.take k).len)) := by
-                intro h; rcases h with h | h | h
-                · omega
+                intro h; rcases h with h | h
                 · omega
                 · exact h.1 hmax
               rw [if_neg this, if_pos hmax]
@@ -366,15 +365,14 @@ theorem flex_chain :
             have hr' : l.readU (data.take k) = .ok next := by
               rw [readU_congr l data (data.take k) rfl hlen (by omega)
                 (by simp only [Slice.take, List.take_take]; congr 1; omega)]; exact hr
-            rw [flexValidate_unfold d l _ f' pos' next (data.take k) (by simpa using hal) (by simpa using hla) (by omega) hr' hn]
+            rw [flexValidate_unfold d l _ f' pos' next (data.take k) (by simpa using hal) (by simpa using hla) (by omega) hr' hn h1]
             by_cases hkn : k < next
-            · have : max l.size d.align > next ∨ max l.size d.align > (data.take k).len ∨
-                  (next ≠ l.max ∧ next > (data.take k).len) := Or.inr (Or.inr ⟨hmax, by omega⟩)
+            · have : max l.size d.align > (data.take k).len ∨
+                  (next ≠ l.max ∧ next > (data.take k).len) := Or.inr ⟨hmax, by omega⟩
               simp only [this, if_true]; exact ⟨_, rfl⟩
-            · have : ¬ (max l.size d.align > next ∨ max l.size d.align > (data.take k).len ∨
+            · have : ¬ (max l.size d.align > (data.take k).len ∨
                   (next ≠ l.max ∧ next > (data.take k).len)) := by
-                intro h; rcases h with h | h | h
-                · omega
+                intro h; rcases h with h | h
                 · omega
                 · omega
               simp only [this, if_false, hmax]
